@@ -78,6 +78,12 @@ def curated():
     K.append(Topo("k18_cycle_branches", ["A", "R1", "R2", "Z"],
                   [L("L1", "A", "R1", 1), L("L2", "R1", "R2", 2), L("L3", "R2", "R1", 1), L("L4", "R2", "Z", 2)],
                   {"A": ("O1", "ramp_out")}, {"Z": ("D1", "cong")}, phi=True))
+    # 19 merge whose node also carries an *unlimited* simplified ramp (its flow is the user-supplied value itself) + VSL downstream
+    K.append(Topo("k19_merge_unl_ramp", ["A", "B", "M", "Z"], [L("L1", "A", "M", 2), L("L2", "B", "M", 1), L("L3", "M", "Z", 2, (0,))],
+                  {"A": ("O1", "ideal"), "B": ("O2", "ramp_in"), "M": ("O3", "simp_unl")}, {"Z": ("D1", "free")}, delta=True))
+    # 20 single-segment link that is both the first segment behind a merging ramp and the last segment before a lane drop
+    K.append(Topo("k20_oneseg_merge_drop", ["A", "B", "C", "D"], [L("L1", "A", "B", 2), L("L2", "B", "C", 1), L("L3", "C", "D", 2)],
+                  {"A": ("O1", "ideal"), "B": ("O2", "ramp_out")}, {"D": ("D1", "cong")}, delta=True, phi=True))
     for t in K:
         assert t.spec_valid(), t.name
     return K
